@@ -228,81 +228,87 @@ def allSites : List Site :=
    .sel_pong, .sel_empty, .sel_get]
 
 
-/-! ## structural summary (the obligation tied to the working tree by `decide`)
+/-! ## structural summary (the static obligation tied to the working tree by `decide`)
 
-Per function: the BAG of operations on (potentially) shared state — method calls named like an operation of a deque / set /
-lock / event / queue / pinger / thread, `with`, `in` ("contains"), `len`, attribute stores ("write:attr"), object creation
-("new:Class"), yield / raise / assert, calls of other listed functions ("call:name") — with helpers that are not listed
-themselves inlined (harness/translate/sites.py, `ops`).  Unlike the statement texts of `table`, this summary does not change
-when a helper is extracted, a local is renamed, a log call is rewritten or branches are reordered; ORDER and CONDITIONS of the
-operations are tied dynamically (every operation executed on a shared object must be the model's next action of that thread).
-`siteOp` says which operation each model action is; `Pox.C07.ops_cover` checks that every action the table anchors in a
-function is an operation in that function's bag. -/
-def ops : List (String × List (String × Nat)) := [
-  ("recoco.BaseTask.start", [("call:fast_schedule", 1), ("call:schedule", 1), ("write:priority", 1)]),
-  ("recoco.Scheduler.callLater", [("call:callLater", 1), ("new:CallLaterTask", 1), ("start", 1), ("with", 1), ("write:_callLaterTask", 1)]),
-  ("recoco.Scheduler.synchronized", [("new:Synchronizer", 1), ("write:synchronizer", 1)]),
-  ("recoco.Scheduler.schedule", [("call:fast_schedule", 1), ("contains", 1), ("new:ScheduleTask", 1), ("start", 1)]),
-  ("recoco.Scheduler.fast_schedule", [("append", 1), ("appendleft", 1), ("assert", 1), ("call:break_idle", 1), ("contains", 1)]),
-  ("recoco.Scheduler.run", [("call:_cycle", 1), ("call:cycle", 1), ("call:idle", 1), ("len", 1), ("write:_allDone", 1), ("write:_hasQuit", 1)]),
-  ("recoco.Scheduler.cycle", [("append", 2), ("call:execute", 2), ("call:registerSelect", 1), ("len", 1), ("popleft", 1), ("raise", 1)]),
-  ("recoco.Select.execute", [("call:registerSelect", 1)]),
-  ("recoco.SelectHub.idle", [("call:_select", 1), ("clear", 1), ("wait", 1)]),
-  ("recoco.SelectHub.break_idle", [("call:_cycle", 1), ("set", 1)]),
-  ("recoco.SelectHub._threadProc", [("call:_select", 1)]),
-  ("recoco.SelectHub._select", [("append", 4), ("assert", 1), ("call:_return", 3), ("clear", 1), ("contains", 5), ("empty", 1), ("get", 1), ("len", 6), ("pongAll", 1), ("remove", 1)]),
-  ("recoco.SelectHub.registerSelect", [("call:_cycle", 1), ("put", 1)]),
-  ("recoco.SelectHub._cycle", [("ping", 1)]),
-  ("recoco.SelectHub._return", [("call:fast_schedule", 1), ("write:rv", 1)]),
-  ("recoco.ScheduleTask.run", [("call:fast_schedule", 1), ("contains", 1), ("yield", 1)]),
-  ("recoco.SyncTask.__init__", [("acquire", 2), ("call:__init__", 1), ("new:Lock", 2), ("write:inlock", 1), ("write:outlock", 1)]),
-  ("recoco.SyncTask.run", [("acquire", 1), ("release", 1), ("yield", 1)]),
-  ("recoco.Synchronizer.__enter__", [("acquire", 1), ("new:SyncTask", 1), ("start", 1), ("write:enter", 1), ("write:syncer", 1)]),
-  ("recoco.Synchronizer.__exit__", [("release", 1), ("write:enter", 1)]),
-  ("recoco.CallLaterTask.__init__", [("call:__init__", 1), ("write:_calls", 1), ("write:_pinger", 1)]),
-  ("recoco.CallLaterTask.callLater", [("append", 1), ("assert", 1), ("ping", 1)]),
-  ("recoco.CallLaterTask.run", [("new:Select", 1), ("pongAll", 1), ("popleft", 1), ("yield", 1)]),
-  ("recoco._LockAcquire.execute", [("call:_do_acquire", 1)]),
-  ("recoco._LockRelease.execute", [("call:_do_release", 1)]),
-  ("recoco.Lock.__init__", [("write:_locked", 1), ("write:_waiting", 1)]),
-  ("recoco.Lock._do_release", [("call:fast_schedule", 1), ("pop", 1), ("raise", 1), ("write:_locked", 2), ("write:rv", 1)]),
-  ("recoco.Lock._do_acquire", [("add", 1), ("write:_locked", 1), ("write:rv", 2)]),
-  ("core.POXCore.callLater", [("call:call_later", 1)]),
-  ("core.POXCore.call_later", [("call:callLater", 1)]),
-  ("core.POXCore.raiseLater", [("call:callLater", 1)]),
-  ("util.make_pinger.PipePinger.ping", [("write", 1)]),
-  ("util.make_pinger.PipePinger.pongAll", [("pong_all", 1)]),
-  ("util.make_pinger.PipePinger.pong_all", [("read", 1)])]
+Per ENTRY POINT of the hand-off protocol (the functions listed above): the SET of operations on shared state it can perform,
+over the transitive closure of the calls it makes inside recoco.py / core.py / util.py.  An element is `op@role`: `op` = a
+method named like an operation of a deque / set / lock / event / queue / pinger (called or picked as a bound method), `with`,
+`contains`, `write` (attribute store), `new` (object creation), `call` (a method name several classes define: dynamic dispatch,
+not followed), or the bare `yield` / `raise` / `assert`; `role` = the shared object: the last attribute name of the receiver,
+seen through local aliases and through parameters bound at followed calls; operations on purely local objects and stores to
+attributes nothing in the package reads are not shared state (harness/translate/sites.py, `ops`).  This summary does not
+change when helpers are split off or merged (also across classes), loops are merged, locals renamed, branches reordered, log
+or debug bookkeeping added; ORDER and CONDITIONS of the operations are tied dynamically (every operation executed on a shared
+object must be the model's next action of that thread).  `siteOp` says which element each model action is;
+`Pox.C07.ops_cover`: every action the table anchors in a function is an element of that function's set. -/
+def ops : List (String × List String) := [
+  ("recoco.BaseTask.start", ["append@_ready", "appendleft@_ready", "assert", "call@start", "contains@_ready", "new@ScheduleTask", "ping@_pinger", "set@_event", "write@priority"]),
+  ("recoco.Scheduler.callLater", ["call@callLater", "call@start", "new@CallLaterTask", "with@_lock", "write@_callLaterTask"]),
+  ("recoco.Scheduler.synchronized", ["new@Synchronizer", "write@synchronizer"]),
+  ("recoco.Scheduler.schedule", ["append@_ready", "appendleft@_ready", "assert", "call@start", "contains@_ready", "new@ScheduleTask", "ping@_pinger", "set@_event"]),
+  ("recoco.Scheduler.fast_schedule", ["append@_ready", "appendleft@_ready", "assert", "contains@_ready", "ping@_pinger", "set@_event"]),
+  ("recoco.Scheduler.run", ["append@_ready", "append@list", "appendleft@_ready", "assert", "call@_smudge", "call@execute", "clear@_event", "contains@_ready", "contains@_tasks", "empty@_incoming", "get@_incoming", "ping@_pinger", "pongAll@_pinger", "popleft@_ready", "put@_incoming", "raise", "remove@list", "set@_event", "wait@_event", "write@_allDone", "write@_hasQuit", "write@rv"]),
+  ("recoco.Scheduler.cycle", ["append@_ready", "call@execute", "ping@_pinger", "popleft@_ready", "put@_incoming", "raise"]),
+  ("recoco.Select.execute", ["ping@_pinger", "put@_incoming"]),
+  ("recoco.SelectHub.idle", ["append@_ready", "append@list", "appendleft@_ready", "assert", "call@_smudge", "clear@_event", "contains@_ready", "contains@_tasks", "empty@_incoming", "get@_incoming", "ping@_pinger", "pongAll@_pinger", "remove@list", "set@_event", "wait@_event", "write@rv"]),
+  ("recoco.SelectHub.break_idle", ["ping@_pinger", "set@_event"]),
+  ("recoco.SelectHub._threadProc", ["append@_ready", "append@list", "appendleft@_ready", "assert", "call@_smudge", "contains@_ready", "empty@_incoming", "get@_incoming", "ping@_pinger", "pongAll@_pinger", "remove@list", "set@_event", "write@rv"]),
+  ("recoco.SelectHub._select", ["append@_ready", "append@list", "appendleft@_ready", "assert", "call@_smudge", "contains@_ready", "empty@_incoming", "get@_incoming", "ping@_pinger", "pongAll@_pinger", "remove@list", "set@_event", "write@rv"]),
+  ("recoco.SelectHub.registerSelect", ["ping@_pinger", "put@_incoming"]),
+  ("recoco.SelectHub._cycle", ["ping@_pinger"]),
+  ("recoco.SelectHub._return", ["append@_ready", "appendleft@_ready", "assert", "contains@_ready", "ping@_pinger", "set@_event", "write@rv"]),
+  ("recoco.ScheduleTask.run", ["append@_ready", "appendleft@_ready", "assert", "contains@_ready", "ping@_pinger", "set@_event", "yield"]),
+  ("recoco.SyncTask.__init__", ["acquire@inlock", "acquire@outlock", "call@__init__", "new@Lock", "write@inlock", "write@outlock"]),
+  ("recoco.SyncTask.run", ["acquire@outlock", "release@inlock", "yield"]),
+  ("recoco.Synchronizer.__enter__", ["acquire@inlock", "call@start", "new@SyncTask", "write@enter", "write@syncer"]),
+  ("recoco.Synchronizer.__exit__", ["release@outlock", "write@enter"]),
+  ("recoco.CallLaterTask.__init__", ["call@__init__", "write@_calls", "write@_pinger"]),
+  ("recoco.CallLaterTask.callLater", ["append@_calls", "assert", "ping@_pinger"]),
+  ("recoco.CallLaterTask.run", ["new@Select", "pongAll@_pinger", "popleft@_calls", "yield"]),
+  ("recoco._LockAcquire.execute", ["add@_waiting", "write@_locked", "write@rv"]),
+  ("recoco._LockRelease.execute", ["append@_ready", "appendleft@_ready", "assert", "contains@_ready", "ping@_pinger", "pop@_waiting", "raise", "set@_event", "write@_locked", "write@rv"]),
+  ("recoco.Lock.__init__", ["write@_locked", "write@_waiting"]),
+  ("recoco.Lock._do_release", ["append@_ready", "appendleft@_ready", "assert", "contains@_ready", "ping@_pinger", "pop@_waiting", "raise", "set@_event", "write@_locked", "write@rv"]),
+  ("recoco.Lock._do_acquire", ["add@_waiting", "write@_locked", "write@rv"]),
+  ("core.POXCore.callLater", ["call@callLater"]),
+  ("core.POXCore.call_later", ["call@callLater"]),
+  ("core.POXCore.raiseLater", ["call@callLater"]),
+  ("util.make_pinger.PipePinger.ping", ["write@os"]),
+  ("util.make_pinger.PipePinger.pongAll", ["call@pong_all"]),
+  ("util.make_pinger.PipePinger.pong_all", ["read@os"])]
 
-/-- the operation (in the vocabulary of `ops`) a model action performs; `none` = a plain read / a dynamic call -/
+/-- the element of `ops` a model action is; `none` = a plain read / a dynamic call / select -/
 def siteOp : Site → Option String
-  | .cl_lock | .cl_unlock => some "with"
-  | .cl_create => some "new:CallLaterTask"
-  | .clt_append | .fs_append | .cyc_append => some "append"
-  | .clt_ping | .cy_ping => some "ping"
-  | .sch_spawn => some "new:ScheduleTask"
-  | .fs_assert | .st_contains | .sch_contains => some "contains"
-  | .fs_appendleft => some "appendleft"
-  | .bi_set => some "set"
-  | .se_create => some "new:SyncTask"
-  | .se_acqIn | .sy_acqOut => some "acquire"
-  | .sx_relOut | .sy_relIn => some "release"
-  | .run_len => some "len"
-  | .idle_wait => some "wait"
-  | .idle_clear => some "clear"
-  | .cyc_pop | .clt_pop => some "popleft"
-  | .rs_put => some "put"
-  | .clt_pong | .sel_pong => some "pongAll"
-  | .sel_empty => some "empty"
-  | .sel_get => some "get"
-  | .sel_select | .cl_isNone | .clt_call | .f_begin | .user_body => none
+  | .cl_lock | .cl_unlock => some "with@_lock"
+  | .cl_create => some "new@CallLaterTask"
+  | .clt_append => some "append@_calls"
+  | .fs_append | .cyc_append => some "append@_ready"
+  | .clt_ping | .cy_ping => some "ping@_pinger"
+  | .sch_spawn => some "new@ScheduleTask"
+  | .fs_assert | .st_contains | .sch_contains => some "contains@_ready"
+  | .fs_appendleft => some "appendleft@_ready"
+  | .bi_set => some "set@_event"
+  | .se_create => some "new@SyncTask"
+  | .se_acqIn => some "acquire@inlock"
+  | .sy_acqOut => some "acquire@outlock"
+  | .sx_relOut => some "release@outlock"
+  | .sy_relIn => some "release@inlock"
+  | .idle_wait => some "wait@_event"
+  | .idle_clear => some "clear@_event"
+  | .cyc_pop => some "popleft@_ready"
+  | .clt_pop => some "popleft@_calls"
+  | .rs_put => some "put@_incoming"
+  | .clt_pong | .sel_pong => some "pongAll@_pinger"
+  | .sel_empty => some "empty@_incoming"
+  | .sel_get => some "get@_incoming"
+  | .run_len | .sel_select | .cl_isNone | .clt_call | .f_begin | .user_body => none
 
-/-- every action anchored in a function is an operation of that function's bag -/
+/-- every action anchored in a function is an element of that function's set -/
 def opsCover : Bool :=
   table.all fun (f, rows) => rows.all fun (_, t) =>
     match t with
     | .act s => match siteOp s with
-      | some o => (ops.find? (·.1 = f)).any fun (_, bag) => bag.any (·.1 = o)
+      | some o => (ops.find? (·.1 = f)).any fun (_, els) => els.contains o
       | none => true
     | _ => true
 
